@@ -36,6 +36,7 @@ ASSUMPTIONS = [
     "mechanism (the failing example both printed and returned a value in the reference run)",
 ]
 NSHARDS = {'quick': 16, 'thorough': 16}
+RULE += (' Example kinds added during the build: output that holds the characters of the marker, options behind an empty source line, one-line compound statements that echo; every fourth text without indented lines stands under a google header and is collected in auto style.')
 
 PRELUDE = '''
 def emit(i):
